@@ -1,7 +1,7 @@
 /-
   Line-protocol driver: dispatch over op groups and per-line verdict.  IMPORT-FREE.
 -/
-import OHVerif.Model.Driver
+import OHVerif.Model.DriverStrict
 
 namespace OH
 namespace Drv
@@ -15,6 +15,11 @@ def dispatch (op : String) (args : List Sx) (impl : Sx) : Option Outcome :=
   if op.startsWith "prim." then prim B op args impl
   else if op.startsWith "ff." then ff B op args impl
   else if op.startsWith "ic." then ic B op args impl
+  else if op.startsWith "hg." then hg B op args impl
+  else if op.startsWith "oh." then oh B op args impl
+  else if op.startsWith "law." then law B op args impl
+  else if op.startsWith "graph." then graph B op args impl
+  else if op.startsWith "eval." then evalG B op args impl
   else none
 
 def verdictLine (line : String) : String :=
